@@ -835,18 +835,21 @@ func processStructLiteralProvider(fset *token.FileSet, typeName *types.TypeName)
 		Pkg:      typeName.Pkg(),
 		Name:     typeName.Name(),
 		Pos:      pos,
-		Args:     make([]ProviderInput, st.NumFields()),
 		IsStruct: true,
 		Out:      []types.Type{out, types.NewPointer(out)},
 	}
 	for i := 0; i < st.NumFields(); i++ {
 		f := st.Field(i)
-		provider.Args[i] = ProviderInput{
+		if f.Name() == "_" {
+			// Blank fields are padding: they cannot be set.
+			continue
+		}
+		provider.Args = append(provider.Args, ProviderInput{
 			Type:      f.Type(),
 			FieldName: f.Name(),
-		}
-		for j := 0; j < i; j++ {
-			if types.Identical(provider.Args[i].Type, provider.Args[j].Type) {
+		})
+		for j, last := 0, len(provider.Args)-1; j < last; j++ {
+			if types.Identical(provider.Args[last].Type, provider.Args[j].Type) {
 				return nil, []error{notePosition(fset.Position(pos), fmt.Errorf("provider struct has multiple fields of type %s", types.TypeString(provider.Args[j].Type, nil)))}
 			}
 		}
@@ -900,6 +903,10 @@ func processStructProvider(fset *token.FileSet, info *types.Info, call *ast.Call
 				continue
 			}
 			f := st.Field(i)
+			if f.Name() == "_" {
+				// Blank fields are padding: they cannot be set.
+				continue
+			}
 			provider.Args = append(provider.Args, ProviderInput{
 				Type:      f.Type(),
 				FieldName: f.Name(),
@@ -1142,7 +1149,7 @@ func checkField(f ast.Expr, st *types.Struct) (*types.Var, error) {
 		return nil, fmt.Errorf("%v must be a string with the field name", b.Value)
 	}
 	for i := 0; i < st.NumFields(); i++ {
-		if st.Field(i).Name() == name {
+		if st.Field(i).Name() == name && name != "_" {
 			if isPrevented(st.Tag(i)) {
 				return nil, fmt.Errorf("%s is prevented from injecting by wire", b.Value)
 			}
